@@ -639,15 +639,25 @@ Definition run_mime (x : xval) : xval :=
   end.
 
 (** body descriptions: (L (N 0) (B bytes)) literal | (L (N 1) (N byte) (N len)) repeated byte
-    | (L (N 2) (N seed) (N len)) bytes of the LCG x' = (1103515245 x + 12345) mod 2^31, byte = x' / 2^16 mod 256 *)
+    | (L (N 2) (N seed) (N len)) bytes of the LCG x' = (1103515245 x + 12345) mod 2^31, byte = x' / 2^16 mod 256
+    | (L (N 3) (N seed) (N len) (N d)) that block doubled d <= 8 times, see [xor_double] *)
 Definition lcg_next (x : N) : N := (1103515245 * x + 12345) mod 2147483648.
 Definition lcg_bytes (seed len : N) : bytes :=
   rev_append (snd (N.iter len (fun st => let x := lcg_next (fst st) in (x, ((x / 65536) mod 256) :: snd st)) (seed, []))) [].
+(** big incompressible bodies without per-byte arithmetic: a pseudo-random block, doubled d times, the copy
+    xor-ed with 2^i in round i (the 2^d segments are the block under 2^d different masks: no repeated text
+    for an LZ matcher, a flat histogram for an entropy coder) *)
+Fixpoint xor_double (i : nat) (d : nat) (b : bytes) : bytes :=
+  match d with
+  | O => b
+  | S d' => xor_double (S i) d' (b ++ map (N.lxor (2 ^ N.of_nat i)) b)
+  end.
 Definition d_body (x : xval) : option bytes :=
   match x with
   | XL [XN 0; XB b] => Some b
   | XL [XN 1; XN c; XN len] => Some (N.iter len (cons c) [])
   | XL [XN 2; XN seed; XN len] => Some (lcg_bytes seed len)
+  | XL [XN 3; XN seed; XN len; XN d] => if d <=? 8 then Some (xor_double 0 (N.to_nat d) (lcg_bytes seed len)) else None
   | _ => None
   end.
 Definition d_pref (x : xval) : option pref :=
@@ -675,46 +685,22 @@ Definition d_req (x : xval) : option (list (meth * option bytes * nat)) :=
 
 (** observation of one reply: status, content-encoding, the body decodes with the decoder of the
     label (an empty body: nothing to decode), the decoded body is the identity body, its length, the
-    bytes sent are the identity bytes, the bytes sent are those of the first reply that carried this
-    label, the buffer sent is one an earlier reply already carried (the memoised one) *)
-Fixpoint assoc_b (k : bytes) (l : list (bytes * bytes)) : option bytes :=
-  match l with
-  | [] => None
-  | (k', v) :: r => if beq k k' then Some v else assoc_b k r
-  end.
-Definition x_reply (status : N) (identity : bytes) (seen : list (bytes * bytes)) (rm : reply * bool)
-  : xval * list (bytes * bytes) :=
+    bytes sent are the identity bytes, the buffer sent is one an earlier reply already carried (the
+    memoised one) *)
+Definition x_reply (status : N) (identity : bytes) (rm : reply * bool) : xval :=
   match fst rm with
-  | NotAcceptable => (XL [XN 406], seen)
+  | NotAcceptable => XL [XN 406]
   | Sent label b _ =>
       let d := match b with [] => Some [] | _ => decode_label dec_tag label b end in
-      let key := match label with Some l => l | None => [] end in
-      let '(same, seen') := match assoc_b key seen with
-                            | Some b0 => (beq b b0, seen)
-                            | None => (true, seen ++ [(key, b)])
-                            end in
-      (XL [XN status; x_option XB label;
-           x_bool (match d with Some _ => true | None => false end);
-           x_bool (match d with Some v => beq v identity | None => false end);
-           x_nat (match d with Some v => length v | None => O end);
-           x_bool (beq b identity);
-           x_bool same;
-           x_bool (snd rm)], seen')
+      XL [XN status; x_option XB label;
+          x_bool (match d with Some _ => true | None => false end);
+          x_bool (match d with Some v => beq v identity | None => false end);
+          x_nat (match d with Some v => length v | None => O end);
+          x_bool (beq b identity);
+          x_bool (snd rm)]
   end.
-Fixpoint x_replies (status : N) (identity : bytes) (seen : list (bytes * bytes)) (rs : list (reply * bool))
-  : list xval * list (bytes * bytes) :=
-  match rs with
-  | [] => ([], seen)
-  | r :: rest =>
-      let '(x, seen1) := x_reply status identity seen r in
-      let '(xs, seen2) := x_replies status identity seen1 rest in
-      (x :: xs, seen2)
-  end.
-Fixpoint x_groups (status : N) (identity : bytes) (seen : list (bytes * bytes)) (gs : list (list (reply * bool))) : list xval :=
-  match gs with
-  | [] => []
-  | g :: rest => let '(xs, seen1) := x_replies status identity seen g in XL xs :: x_groups status identity seen1 rest
-  end.
+Definition x_groups (status : N) (identity : bytes) (gs : list (list (reply * bool))) : list xval :=
+  map (fun g => XL (map (x_reply status identity) g)) gs.
 
 (** page: (L body (L [content-type]) compress cache pref_oneshot pref_cached (L [content-encoding of the handler])
     (N status) levels); levels = the six compression levels, which only the real encoders look at *)
@@ -735,7 +721,7 @@ Definition run_pipe_neg (x : xval) : xval :=
   | XL [xpage; XL xreqs] =>
       match d_page xpage, d_all d_req xreqs with
       | Some (pg, _), Some reqs =>
-          XL (x_groups (pg_status pg) (pg_body pg) []
+          XL (x_groups (pg_status pg) (pg_body pg)
                 (serve_groups parse_q_dec parse_mime_std enc_tag pg None (concat reqs)))
       | _, _ => bad_input
       end
